@@ -3,6 +3,17 @@
 HOOK_COMMITS = ["af6de69"]   # filled as hook commits are made in /repo
 
 CHECKS = {
+    "C12": dict(
+        category="model_checking",
+        text=("BgzfPool.tla model-checks the worker-pool protocol (any completion order, in-order delivery, empty blocks, liveness) "
+              "for all interleavings in the bound; the real binary is run on every Create.tla behaviour of a 4-population scenario "
+              "set in 9 container/layout variants x path/stdin x 6 thread counts x repeats x environments x slow pipes, each "
+              "compared with the specification's expected bytes and with the plain-VCF run."),
+        design_ref="DESIGN.md section 3 (C12) and section 5",
+        note=("Thread schedules of the third-party pool are exhaustive in the model and SAMPLED on the real code; hash-seed "
+              "independence is sampled by repeated runs. Trusted: TLC, harness BGZF/BCF encoders."),
+        technique="TLA+ worker-pool model checked exhaustively by TLC; Create.tla behaviours replayed across containers, transports, threads and runs",
+    ),
     "C06": dict(
         category="model_checking",
         text=("Stats.tla defines the 14 statistics on genotypes (from the statement), on spectra (as computed) and the published "
